@@ -96,6 +96,10 @@ class Check:
             self.harness_errors.append('%s: exploration incomplete (budget/wall limit)' % s['name'])
         if exp.stats.paths < need_paths:
             self.harness_errors.append('%s: only %d paths explored (vacuous harness?)' % (s['name'], exp.stats.paths))
+        if exp.reached == 0 and not exp.failures:
+            # reachability witness: some path must run through the whole harness, otherwise an
+            # unsatisfiable assumption could make every obligation pass vacuously
+            self.harness_errors.append('%s: no path reaches the end of the harness (vacuous assumptions?)' % s['name'])
         for f in exp.failures:
             f = dict(f)
             f['harness'] = s['name']
